@@ -203,7 +203,7 @@ func c02Run(t *testing.T, cfg c02Config) c02Outcome {
 				return sim.ClientKind{Name: base.Name, U: base.U}
 			}
 			return sim.ClientKind{Name: base.Name, U: true, Spec: func() *quic.QUICSpec {
-				if spec == nil { // ONE spec value, reused by every dial of this history
+				if spec == nil { // ONE spec value, reused by every dial of this history (built inside the seeded bubble)
 					s, err := quic.QUICID2Spec(*base.ID)
 					if err != nil {
 						panic(err)
